@@ -124,7 +124,7 @@ def run(item):
         f, out, orig = mem_entry(spec, item["comp"], item["level"])
         valid = open(item["valid"], "rb").read()
         if orig != valid:
-            return dict(cls="infra", detail="output.pkl differs from joblib.dump of the same object")
+            return dict(cls="infra", detail="output.pkl differs from joblib.dump of the same object: %r vs %r" % (orig[:40], valid[:40]))
         data = damaged(item)
         with open(out, "wb") as fh:
             fh.write(data)
@@ -424,7 +424,7 @@ def _kind(dmg):
 
 def _case(f, dmg, route):
     return dict(spec=f["spec"], comp=f["comp"], level=f["level"], damage=dmg if dmg[0] == "cut" else [dmg[0], dmg[1], dmg[2][:64] + ("…" if len(dmg[2]) > 64 else "")],
-                damage_full=dmg if len(str(dmg)) < 400 else None, route=route, valid_len=f["R"], payload_len=f["L"])
+                damage_full=dmg if len(str(dmg)) < 50000 else None, route=route, valid_len=f["R"], payload_len=f["L"])
 
 
 def _explore(ctx, salt, plan=None, only=None, budget_scale=1):
